@@ -80,6 +80,44 @@ def totalSize : List Dgram → Nat
   | [] => 0
   | d :: ds => d.size + totalSize ds
 
+/-- the loop at the end of `datagrams_to_send`: `network_path.bytes_sent += payload_length`
+    for every datagram returned (they all go to `_network_paths[0]`) -/
+def sent (n : Net) (total : Nat) : Net :=
+  match n.paths with
+  | [] => n
+  | p :: rest => { paths := { p with bytesSent := p.bytesSent + total } :: rest }
+
+/-- what `datagrams_to_send` looks at when it sets the builder budgets.
+    `pingPending` (application PINGs queued by `send_ping`) is listed to make
+    explicit that it plays no role: only a loss-detection probe may exceed the window. -/
+structure SendIn where
+  cwnd : Int
+  bytesInFlight : Int
+  probePending : Bool
+  pingPending : Bool
+  closePending : Bool
+  maxDatagramSize : Nat
+deriving Repr, Inhabited
+
+/-- `builder.max_flight_bytes` for this call (`none`: the close branch sets no congestion budget) -/
+def flightBudget (i : SendIn) : Option Int :=
+  if i.closePending then none else some (maxFlight i.cwnd i.bytesInFlight i.probePending i.maxDatagramSize)
+
+/-- `builder.max_total_bytes` for this call: path 0's remaining anti-amplification budget,
+    in the normal and in the close branch -/
+def totalBudget (n : Net) : Option Int :=
+  match n.paths with
+  | [] => none
+  | p :: _ => p.maxTotal
+
+/-- a whole `datagrams_to_send` call: budgets from the connection state, the builder
+    calls of the three packet-number spaces (a QuicPacketBuilderStop raised in one
+    space is caught there and the next space goes on: `Builder.run` continues after
+    `stop`), `flush()`, ledger update -/
+def connSendCall (i : SendIn) (isClient : Bool) (peerCidLen hostCidLen tokenLen pn : Nat) (ops : List Builder.Op) : SendCall :=
+  { isClient := isClient, maxDatagramSize := i.maxDatagramSize, peerCidLen := peerCidLen, hostCidLen := hostCidLen,
+    tokenLen := tokenLen, packetNumber := pn, flight := flightBudget i, ops := ops }
+
 def step (n : Net) : Op → Net
   | .rx i len =>
     match n.paths[i]? with
@@ -99,7 +137,7 @@ def step (n : Net) : Op → Net
   | .send c =>
     match n.paths with
     | [] => n          -- (IndexError before fixes/C09-no-network-path.diff; nothing is sent)
-    | p :: rest => { paths := { p with bytesSent := p.bytesSent + totalSize (sendOut p c) } :: rest }
+    | p :: _ => sent n (totalSize (sendOut p c))
 
 def run (n : Net) : List Op → Net
   | [] => n
